@@ -9,15 +9,15 @@ from harness import table_common
 META = dict(
     property_id="C12", level="model_checking", design_ref="DESIGN.md §4 C12",
     technique="TLA+ model of per-file classes (unchanged / user-edited / merge-written / added / unknown / conflicted / "
-              "missing / unversioned-but-kept) x revert, remove, merge, pull, update, switch, uncommit with their options, "
+              "missing / unversioned-but-kept / renamed-and-edited) x revert, remove, merge, pull, update, switch, uncommit with their options, "
               "with the safety rule 'every user content still exists somewhere in the tree directory' as the law, "
               "model-checked by TLC on the specification's own command semantics; the TLC case table is built on real "
               "on-disk bzr (2a) and git trees, the real command is run (library API, and builtins command objects for a "
               "sample), and the directory contents before / after are judged by TLC",
-    level_text="TLC enumerates every assignment of the 8 file classes to 2 (quick: seeded sample of the state groups) / 3 "
+    level_text="TLC enumerates every assignment of the 9 file classes to 2 (quick: seeded, class-stratified sample of the state groups) / 3 "
                "(thorough, bzr; 2 for git) files x revert(all | one file | directory, backups yes/no) x remove(file | "
                "directory, keep | force | default) x {merge, pull, update, switch}(incoming edit of the same / other "
-               "region, delete, rename, colliding add) x uncommit, proves the rule on the model, and every replayed "
+               "region, delete, rename, rename + edit, colliding add) x uncommit, proves the rule on the model, and every replayed "
                "case is a real command on a real tree whose complete directory content (path -> content) before and "
                "after is judged by the same TLA+ rule; exact locations are compared with the model as conformance. The "
                "commands decide per file on class and options only, so small-scope exhaustion is the right level.",
@@ -31,11 +31,13 @@ META = dict(
 SEP = "".join("s%d\n" % i for i in range(1, 9))
 FMT = {"bzr": "2a", "git": "git"}
 CTL = {"bzr": ".bzr", "git": ".git"}
-INBASIS = ("unch", "edit", "mergew", "confl", "missing", "rmkept")
+INBASIS = ("unch", "edit", "mergew", "confl", "missing", "rmkept", "renedit")
 SHAPE = {"update": "bound", "switch": "light"}
 MERGEOPS = ("merge", "pull", "update", "switch")
 WITNESSES = ("WitnessBackup", "WitnessMoved", "WitnessDirBackup", "WitnessCleanMerge", "WitnessConflict",
-             "WitnessDiscardOk", "WitnessHelperAtRisk")
+             "WitnessDiscardOk", "WitnessRenamedEdit", "WitnessRenamedBothSides", "WitnessRenamedIncoming",
+             "WitnessHelperAtRisk")
+CLASSES = ("unch", "edit", "mergew", "added", "unknown", "confl", "missing", "rmkept", "renedit")
 
 
 def text(f, ra, rb):
@@ -140,6 +142,9 @@ class Fix:
             elif c == "rmkept":
                 w.remove([f], keep_files=True)
                 wr(wp, f, text(f, "L", "0"))
+            elif c == "renedit":                       # renamed AND edited, both uncommitted
+                w.rename_one(f, f + "r")
+                wr(wp, f + "r", text(f, "L", "0"))
         os.rename(cur, self.tmpl)
 
     def fresh(self):
@@ -154,13 +159,13 @@ class Fix:
         tp = trunk.basedir
         for f in self.files:
             if self.cls[f] in INBASIS:
-                if inc == "same":
+                if inc in ("same", "rensame"):
                     wr(tp, f, text(f, "I", "0"))
-                elif inc == "other":
+                elif inc in ("other", "renother"):
                     wr(tp, f, text(f, "0", "I"))
                 elif inc == "delete":
                     trunk.remove([f], keep_files=False, force=True)
-                elif inc == "rename":
+                if inc in ("rename", "rensame", "renother"):
                     trunk.rename_one(f, f + "2")
             elif collide:
                 wr(tp, f, text(f, "I", "0"))
@@ -168,10 +173,15 @@ class Fix:
         trunk.commit("r2", allow_pointless=True)
         return trunk.basedir
 
+    def where(self, x):
+        """the path at which the tree under test has file x now (commands are given current paths)"""
+        return x + "r" if self.cls.get(x) == "renedit" else x
+
     def run(self, c, via):
         from breezy.workingtree import WorkingTree
         wp = self.fresh()
         op = c["op"]
+        c = dict(c, sel=self.where(c["sel"]), target=self.where(c["target"]))
         tp = self.incoming(c["inc"], c["collide"]) if op in MERGEOPS else None
         before = observe(wp, self.fl, self.tags)
         out = "ok"
@@ -282,7 +292,8 @@ def opdesc(c, cl):
         return "remove[%s,%s]" % (c["mode"], "dir" if c["target"] == "d" else "file")
     if op in MERGEOPS:
         return "merge-like[%s]" % ("collide" if cl in ("added", "unknown") and c["collide"] else
-                                   "incoming-" + {"same": "modifies", "other": "modifies"}.get(c["inc"], c["inc"] + "s"))
+                                   "incoming-" + {"same": "modifies", "other": "modifies", "rensame": "renames+modifies",
+                                                  "renother": "renames+modifies"}.get(c["inc"], c["inc"] + "s"))
     return op
 
 
@@ -324,13 +335,26 @@ def run(ctx):
     for g in keys:
         groups[g].sort(key=lambda k: _key(k["c"]))
     if ctx.quick:
+        # seeded sample of the state groups, stratified: for every (flavour, tree shape) each file class occurs in at
+        # least one replayed group (so every class meets every command of that shape), then random groups up to ~600
         ctx.rng.shuffle(keys)
         picked, n = [], 0
+        for fl, shape in sorted({g[:2] for g in keys}):
+            for cl in CLASSES:
+                have = [g for g in picked if g[:2] == (fl, shape) and cl in dict(g[2]).values()]
+                cand = [g for g in keys if g[:2] == (fl, shape) and cl in dict(g[2]).values()]
+                if not have and cand:
+                    # prefer a group that brings other classes this stratum still lacks
+                    lacking = {x for x in CLASSES if not any(x in dict(p[2]).values() for p in picked if p[:2] == (fl, shape))}
+                    cand.sort(key=lambda g: -len(lacking & set(dict(g[2]).values())))
+                    picked.append(cand[0])
+                    n += len(groups[cand[0]])
         for g in keys:
             if n >= 600:
                 break
-            picked.append(g)
-            n += len(groups[g])
+            if g not in picked:
+                picked.append(g)
+                n += len(groups[g])
         keys = picked
     items = []
     ncmd = 0
@@ -384,10 +408,10 @@ def run(ctx):
                 what, {e["p"]: e["t"] for e in row["impl"]["after"]}, dict(row["spec"])), rep)
     if nprebad * 4 > len(rows):
         ctx.machinery("%d of %d fixtures are not the specified before-state" % (nprebad, len(rows)))
-    ctx.rule("cases = tree flavour x class assignment {unch, edit, mergew, added, unknown, confl, missing, rmkept}^Files x "
+    ctx.rule("cases = tree flavour x class assignment {unch, edit, mergew, added, unknown, confl, missing, rmkept, renedit}^Files x "
              "{revert(all | file | d, backups?), remove(file | d, keep | force | default), uncommit, and for trees without "
-             "pending merge merge / pull / update / switch (incoming same-region, other-region, delete, rename; colliding "
-             "add)} enumerated by TLC: %d cases; %s; %d additional runs of sampled cases through breezy.builtins command "
+             "pending merge merge / pull / update / switch (incoming same-region, other-region, delete, rename, rename+same, rename+other; "
+             "colliding add)} enumerated by TLC: %d cases; %s; %d additional runs of sampled cases through breezy.builtins command "
              "objects. Non-trivial = the command changed the tree directory" % (
                  total, "a seeded sample of %d state groups = %d cases replayed" % (len(keys), nrun - ncmd) if ctx.quick
                  else "all replayed", ncmd))
